@@ -90,9 +90,11 @@ def fix_pools(jobs, root):
     return jobs
 
 
-def resumed_traces(ctx):
+def resumed_traces(ctx, composite=False):
     """dump a few dumping variants of shipped configurations at every dumping event and resume each dump through the
-    repository's resume.main(): the resumed runs are further event histories every run-level property must hold on"""
+    repository's resume.main(): the resumed runs are further event histories every run-level property must hold on.
+    `composite`: configurations with composite objects, many dumps per run (a candidate that is pending at the dump keeps its
+    pickled in-state — branches of nodes with explicit weights — and commits after the resume)"""
     import os, tempfile, shutil
     from harness.props import c19
     rng = ctx.rng
@@ -100,15 +102,22 @@ def resumed_traces(ctx):
     out = []
     try:
         jobsA = []
-        for n, (ini, t_end) in enumerate([(CFG + "coulomb_atoms/power_bounded_dump.ini", 9.0), (CFG + "coulomb_atoms/cell_veto.ini", 2.5),
-                                          (CFG + "dipoles/dipole_motion.ini", 7.0)][:ctx.n(2, 3)]):
+        base = [(CFG + "coulomb_atoms/power_bounded_dump.ini", 9.0), (CFG + "coulomb_atoms/cell_veto.ini", 2.5),
+                (CFG + "dipoles/dipole_motion.ini", 7.0)][:ctx.n(2, 3)]
+        per_run = 3
+        if composite:
+            base = [(CFG + "dipoles/atom_factors.ini", 14.0), (CFG + "dipoles/dipole_motion.ini", 9.0),
+                    (CFG + "dipoles/dipole_factors_inside_first.ini", 9.0), (CFG + "water/coulomb_power_bounded_lj_inverted.ini", 3.0)][:ctx.n(2, 4)]
+            per_run = ctx.n(9, 24)
+        for n, (ini, t_end) in enumerate(base):
             for sched in (["heap_scheduler", "list_scheduler"] if n == 0 else ["heap_scheduler"]):
                 dd = os.path.join(work, f"A{len(jobsA)}")
                 os.makedirs(dd)
                 ov = c19.merge({"FinalTimeEndOfRunEventHandler": {"end_of_run_time": t_end}, "SingleProcessMediator": {"scheduler": sched}},
-                               c19.dumping_overrides(ctx.root, ini, round(t_end / rng.choice([2.3, 3.1, 4.4]), 4)))
+                               c19.dumping_overrides(ctx.root, ini, round(t_end / (rng.choice([2.3, 3.1, 4.4]) if not composite
+                                                                                   else per_run + rng.choice([0.3, 0.6])), 4)))
                 ov = c19.merge(ov, {"DumpingOutputHandler": {"filename": f"dumpR{len(jobsA)}_{os.getpid()}.dat"}})
-                if n == 0 and sched == "heap_scheduler":
+                if n == 0 and sched == "heap_scheduler" and not composite:
                     # several atoms: handlers of one pool are trashed and re-used at different times, so the scheduler holds
                     # lazily deleted entries of handlers that are NOT running at the dump
                     k = rng.randint(4, 7)
@@ -117,8 +126,9 @@ def resumed_traces(ctx):
         trsA = runs.run_jobs(ctx.root, jobsA)
         jobsB = []
         for A in trsA:
-            for dk in (A.get("dumps") or [])[:3]:
-                jobsB.append({"ini": A["meta"].get("ini", "?"), "resume": dk["file"], "max_legs": ctx.n(1500, 8000), "kind": "resumed",
+            for dk in (A.get("dumps") or [])[:per_run]:
+                jobsB.append({"ini": A["meta"].get("ini", "?"), "resume": dk["file"], "max_legs": ctx.n(1500, 8000) if not composite else ctx.n(500, 2500),
+                              "kind": "resumed",
                               "seed": A.get("job", {}).get("seed", 0)})
         out = runs.run_jobs(ctx.root, jobsB) if jobsB else []
     finally:
